@@ -9,10 +9,11 @@ Import ListNotations.
 
 (* ---------------------------------------------------------------- every session is accepted *)
 Theorem C04_honest_stack_proof specs specl typed quit run_empty fuel acts :
+  failing_setup_plain specs ->
   (forall n, specs n = nth n specl default_spec) ->
   sok chk_C04 typed (rev (trace (snd (app_run_all specs specl typed quit run_empty fuel acts)))) = true.
 Proof.
-  intros _. apply acc_sok. eapply acc_weaken; [|apply (app_accepted false); discriminate].
+  intros Hpl _. apply acc_sok. eapply acc_weaken; [|apply (app_accepted false); [exact Hpl | discriminate]].
   intros w e H. unfold chkb in H. apply andb_true_iff in H. exact (proj1 H).
 Qed.
 
@@ -49,7 +50,8 @@ Proof.
     destruct (tag =? T_SETUP)%nat; [destruct (nth0 args 3 =? 1)%nat; reflexivity|].
     destruct (tag =? T_REFRESH)%nat; [reflexivity|].
     destruct (tag =? T_SHOW)%nat; [reflexivity|].
-    destruct (tag =? T_CLOSED)%nat; reflexivity.
+    destruct (tag =? T_CLOSED)%nat; [reflexivity|].
+    destruct (tag =? T_SETUP_BEGIN)%nat; reflexivity.
 Qed.
 
 (* so: the entries beneath the top change only by add_first, at the bottom *)
@@ -87,7 +89,8 @@ Lemma accepted_show_top typed t1 i scr tx t2 :
   sok chk_C04 typed (t1 ++ EUser T_SHOW [i; scr] tx :: t2) = true ->
   exists e rest, sw_stack (fold_left sworld_step t1 (sworld0 typed)) = e :: rest /\ en_id e = i /\ en_scr e = scr.
 Proof.
-  intros H. apply sok_event in H. unfold chk_C04, top_entry in H. cbn [Nat.eqb T_SHOW T_STACK T_OP T_SETUP T_REFRESH orb nth0 nth] in H.
+  intros H. apply sok_event in H. unfold chk_C04, top_entry in H.
+  cbn [Nat.eqb T_SHOW T_STACK T_OP T_SETUP T_REFRESH T_SETUP_BEGIN orb negb andb nth0 nth] in H. rewrite orb_false_r in H.
   destruct (sw_stack (fold_left sworld_step t1 (sworld0 typed))) as [|e rest]; [discriminate|].
   apply andb_true_iff in H as [H1 H2]. apply Nat.eqb_eq in H1, H2. eauto.
 Qed.
@@ -116,11 +119,13 @@ Lemma beneath_schedule w i scr args m t : sw_stack w <> [] ->
 Proof. intros. split; [apply beneath_add_first | apply top_add_first]; assumption. Qed.
 
 Lemma stack_link specs specl typed quit run_empty fuel acts :
+  failing_setup_plain specs ->
   Forall finished (fst (app_run_all specs specl typed quit run_empty fuel acts)) ->
   slink typed (snd (app_run_all specs specl typed quit run_empty fuel acts)).
-Proof. intros. apply (app_slink false); [discriminate | assumption]. Qed.
+Proof. intros. apply (app_slink false); [assumption | discriminate | assumption]. Qed.
 
 Lemma exec_link typed specs Ps pf f c s o s' :
+  failing_setup_plain specs ->
   is_prog c = false -> Inv typed false 0 Ps pf s ->
   exec (screen_code specs) f c s = (o, s') ->
   match o with
@@ -128,8 +133,8 @@ Lemma exec_link typed specs Ps pf f c s o s' :
   | _ => Inv typed false 0 Ps pf s'
   end.
 Proof.
-  intros Hc HI E.
-  pose proof (exec_inv typed false specs 0 ltac:(discriminate) Ps pf f c s o s' Hc HI E) as P.
+  intros Hpl Hc HI E.
+  pose proof (exec_inv typed false specs Hpl 0 ltac:(discriminate) Ps pf f c s o s' Hc HI E) as P.
   destruct o as [|x| |]; exact P.
 Qed.
 
@@ -141,23 +146,23 @@ Definition ex_hub : screen_spec :=
   {| sc_setup := []; sc_refresh := []; sc_show := []; sc_closed := [SMark 1];
      sc_input := [(key 112, ([SPushModal 1 7], RRedraw)); (key 115, ([SPush 3 0], RProcessed)); (key 113, ([], RClose))];
      sc_input_default := ([], None); sc_prompt_none := false; sc_input_required := true;
-     sc_no_separator := false; sc_skip_check := false; sc_pages := 0; sc_answer0 := AnsNoAttr; sc_custom := [] |}.
+     sc_no_separator := false; sc_skip_check := false; sc_pages := 0; sc_answer0 := AnsNoAttr; sc_custom := []; sc_setup_cmds := [] |}.
 (* a dialog that replaces itself by a second one on 'r' *)
 Definition ex_dialog : screen_spec :=
   {| sc_setup := []; sc_refresh := []; sc_show := []; sc_closed := [SMark 2];
      sc_input := [(key 114, ([SReplace 2 5], RProcessed))];
      sc_input_default := ([], None); sc_prompt_none := false; sc_input_required := true;
-     sc_no_separator := false; sc_skip_check := false; sc_pages := 0; sc_answer0 := AnsNoAttr; sc_custom := [] |}.
+     sc_no_separator := false; sc_skip_check := false; sc_pages := 0; sc_answer0 := AnsNoAttr; sc_custom := []; sc_setup_cmds := [] |}.
 (* the second dialog: 'c' (the global key) closes it *)
 Definition ex_dialog2 : screen_spec :=
   {| sc_setup := []; sc_refresh := []; sc_show := []; sc_closed := [SMark 3];
      sc_input := []; sc_input_default := ([], None); sc_prompt_none := false; sc_input_required := true;
-     sc_no_separator := true; sc_skip_check := false; sc_pages := 0; sc_answer0 := AnsNoAttr; sc_custom := [] |}.
+     sc_no_separator := true; sc_skip_check := false; sc_pages := 0; sc_answer0 := AnsNoAttr; sc_custom := []; sc_setup_cmds := [] |}.
 (* a screen whose setup fails the first time *)
 Definition ex_shy : screen_spec :=
   {| sc_setup := [false; true]; sc_refresh := []; sc_show := []; sc_closed := [];
      sc_input := []; sc_input_default := ([], None); sc_prompt_none := false; sc_input_required := true;
-     sc_no_separator := false; sc_skip_check := false; sc_pages := 0; sc_answer0 := AnsNoAttr; sc_custom := [] |}.
+     sc_no_separator := false; sc_skip_check := false; sc_pages := 0; sc_answer0 := AnsNoAttr; sc_custom := []; sc_setup_cmds := [] |}.
 Definition ex_specl : list screen_spec := [ex_hub; ex_dialog; ex_dialog2; ex_shy].
 Definition ex_specs (n : nat) : screen_spec := nth n ex_specl default_spec.
 
@@ -200,3 +205,32 @@ Definition bad_unannounced_pop : list event :=
 Definition bad_replace_modality : list event :=
   [ETop; EUser T_OP [O_PUSH_MODAL; 0; 0] []; EUser T_STACK [K_APPEND; 0; 0; 0; 1] [];
    EUser T_OP [O_REPLACE; 1; 0] []; EUser T_STACK [K_POP; 0; 0; 0; 1] []; EUser T_STACK [K_APPEND; 1; 1; 0; 0] []].
+
+(* ---------------------------------------------------------------- a setup() that pushes a screen and then reports failure *)
+(* screen 0: `def setup(self, args): ScreenHandler.push_screen(screen1); return <result>`; screen 1 is plain.
+   Screen 0 is scheduled and the application runs; the user types 'c' twice. *)
+Definition fs_screen (setup : list bool) : screen_spec :=
+  {| sc_setup := setup; sc_refresh := []; sc_show := []; sc_closed := [];
+     sc_input := []; sc_input_default := ([], None); sc_prompt_none := false; sc_input_required := true;
+     sc_no_separator := false; sc_skip_check := false; sc_pages := 0; sc_answer0 := AnsNoAttr; sc_custom := [];
+     sc_setup_cmds := [SPush 1 0] |}.
+Definition fs_specl (setup : list bool) : list screen_spec := [fs_screen setup; default_spec].
+Definition fs_specs (setup : list bool) (n : nat) : screen_spec := nth n (fs_specl setup) default_spec.
+Definition fs_typed : list (option str) := [Some [99%N]; Some [99%N]].
+Definition fs_acts : list saction := [SACmds [SSchedule 0 0]; SARun].
+Definition fs_fuel : nat := 300.
+
+(* the setup reports failure: _process_screen pops "the entry whose setup failed" — but the top of the stack is now the
+   screen that setup() pushed; that one is discarded, the failed entry stays (and is set up again on the next redraw,
+   for ever).  The honest-stack acceptor rejects the pop *)
+Example C04_failed_setup_after_push_refuted :
+  sok chk_C04 fs_typed (rev (trace (snd (app_run_all (fs_specs [false]) (fs_specl [false]) fs_typed None false fs_fuel fs_acts)))) = false.
+Proof. vm_compute; reflexivity. Qed.
+
+(* the same session with a setup() that succeeds is accepted, runs to its end, and draws the pushed screen, then —
+   after it is closed — the screen whose setup() pushed it *)
+Example C04_setup_push_accepted :
+  sok chk_C04 fs_typed (rev (trace (snd (app_run_all (fs_specs []) (fs_specl []) fs_typed None false fs_fuel fs_acts)))) = true /\
+  fst (app_run_all (fs_specs []) (fs_specl []) fs_typed None false fs_fuel fs_acts) = [ONormal; ONormal] /\
+  shows (rev (trace (snd (app_run_all (fs_specs []) (fs_specl []) fs_typed None false fs_fuel fs_acts)))) = [(1, 1); (0, 0)].
+Proof. vm_compute. repeat split. Qed.
